@@ -189,6 +189,58 @@ func (c *Ctx) Guarded(key, fname string, target IM, guards []*Guard, min int, de
 	c.ok(key, rule, desc, len(tg))
 }
 
+// GuardedPaths (K2, per-path phi resolution): on every feasible path from
+// entry to a target, for each clause at least one of its guards is
+// established (a conjunction of disjunctions).
+func (c *Ctx) GuardedPaths(key, fname string, target IM, clauses [][]*Guard, min int, desc, why string) {
+	rule := "K2 Guarded (path enumeration, phi resolution)"
+	fn := c.F(fname)
+	if !c.need(key, rule, desc, fn, fname) {
+		return
+	}
+	if len(Instrs(fn, target)) < min {
+		c.fail(key, rule, desc, why, fmt.Sprintf("only %d target site(s) matched in %s, expected >= %d", len(Instrs(fn, target)), fname, min), 0)
+		return
+	}
+	var bad string
+	n, over := c.P.EnumPaths(fn, target, 20000, func(facts []PathFact, trace []*ssa.BasicBlock, at ssa.Instruction) {
+		if bad != "" {
+			return
+		}
+		for _, cl := range clauses {
+			sat := false
+			for _, g := range cl {
+				for _, f := range facts {
+					if f.Val == g.Val && g.rx.MatchString(f.Cond) {
+						sat = true
+					}
+				}
+			}
+			if !sat {
+				var gs []string
+				for _, g := range cl {
+					gs = append(gs, fmt.Sprintf("%s=%v", g.Re, g.Val))
+				}
+				bad = fmt.Sprintf("target %s reachable on a feasible path that establishes none of [%s]; path %s", c.where(at), strings.Join(gs, " or "), c.P.TraceString(trace))
+				return
+			}
+		}
+	})
+	if over {
+		c.undecided(key, rule, desc, "more than 20000 paths")
+		return
+	}
+	if bad != "" {
+		c.fail(key, rule, desc, why, bad, n)
+		return
+	}
+	if n == 0 {
+		c.fail(key, rule, desc, why, "no feasible path reaches the target (target unreachable: the construct is dead)", 0)
+		return
+	}
+	c.ok(key, rule, desc, n)
+}
+
 // After (K3): every path from an instruction matching from to an exit
 // matching exit passes an instruction matching then.
 func (c *Ctx) After(key, fname string, from, then, exit IM, min int, desc, why string) {
@@ -409,3 +461,18 @@ func (c *Ctx) CallArgs(fname string, m IM, idx int) []string {
 
 // Cond is a shorthand for guards in obligations.
 func gs(g ...*Guard) []*Guard { return g }
+
+type ssaInstr = ssa.Instruction
+
+// returnsOf renders the first result of every return of a function.
+func (c *Ctx) returnsOf(fname string) []string {
+	fn := c.F(fname)
+	var out []string
+	for _, in := range Instrs(fn, IsReturn) {
+		r := in.(*ssa.Return)
+		if len(r.Results) > 0 {
+			out = append(out, c.P.Render(returnedValue(r, 0)))
+		}
+	}
+	return out
+}
